@@ -194,6 +194,22 @@ func renderPattern(p pattern.Pattern) string {
 	return fmt.Sprintf("Pattern{Root: %s, Bindings: []string{%s}}", renderNode(p.Root), strings.Join(names, ", "))
 }
 
+// patterns over typed trees (Builtin, Object). Object is only given literal
+// names or _: the real Object.Match evaluates its name pattern twice and a
+// name bound to a string never recalls successfully, so (Object x) fails
+// where one might expect a match — a spurious failure, which the property
+// (about bindings after a successful match) does not cover.
+// the `_ = len` statement makes
+// "len" a used value, shadow() rebinds it
+var c09TypedPatterns = []string{
+	`(CallExpr (Or (Builtin fn) (Ident other)) args)`,
+	`(CallExpr (Builtin "len") [arg])`,
+	`(CallExpr (Or (Builtin (Or "cap" name)) rest) [(Or (CallExpr (Builtin inner) _) x)])`,
+	`(CallExpr (Not (Builtin b)) [a])`,
+	`(CallExpr (Or (Object "helper") (Builtin o)) _)`,
+	`(CallExpr f@(Object _) [(Or (Builtin f) y)])`,
+}
+
 func c09Prepare(c *Ctx) (map[string]string, []Entry, error) {
 	pats := append([]string{}, c09Patterns...)
 	pats = append(pats, c09Many(2), c09Many(33))
@@ -227,6 +243,18 @@ func c09Prepare(c *Ctx) (map[string]string, []Entry, error) {
 			Entry{Fn: fmt.Sprintf("Harness_C09_match_p%d", i), Tiers: "both", Reach: []string{"end"}, Bounds: b},
 			Entry{Fn: fmt.Sprintf("Harness_C09_spelling_p%d", i), Tiers: "both", Reach: []string{"end"}, Bounds: b})
 	}
+	for i, ps := range c09TypedPatterns {
+		var parser pattern.Parser
+		parser.AllowTypeInfo = true
+		p, err := parser.Parse(ps)
+		if err != nil {
+			return nil, nil, fmt.Errorf("typed pattern %d does not parse: %v\n%s", i, err, ps)
+		}
+		fmt.Fprintf(&sb, "// %s\nfunc c09TypedPat%d() Pattern {\n\treturn %s\n}\n\n", ps, i, renderPattern(p))
+		fmt.Fprintf(&sb, "func Harness_C09_typed_p%d() {\n\tc09TypedCheck(%q, c09TypedPat%d())\n\tvreach(\"end\")\n}\n\n", i, fmt.Sprintf("typed pattern %d", i), i)
+		entries = append(entries, Entry{Fn: fmt.Sprintf("Harness_C09_typed_p%d", i), Tiers: "both", Reach: []string{"end"},
+			Bounds: "pattern: " + ps + " ; the 7 call expressions of a small package (builtin calls, shadowed builtin, function, function-typed variable, nested) parsed and type-checked by the real go/parser and go/types inside the engine"})
+	}
 	return map[string]string{"zz_c09_gen.go": sb.String()}, entries, nil
 }
 
@@ -237,7 +265,7 @@ func init() {
 			Level: "model_checking",
 			Assumptions: []string{
 				"patterns: 14 (thorough 17) patterns nesting Or, Not, List and Binding, with repeated names and up to 64 names, in both spellings; parsed by the real parser natively on every run and rebuilt as Go values including the unexported binding index",
-				"syntax trees: 19 expression shapes (incl. slice expressions with absent bounds) with symbolic leaves; nodes that need type information (Symbol, Object, Builtin, IntegerLiteral) are outside the claim",
+				"syntax trees: 19 expression shapes (incl. slice expressions with absent bounds) with symbolic leaves; of the nodes that need type information, Builtin and Object are covered on 7 typed call expressions; Symbol is exercised under C08; IntegerLiteral and TrulyConstantExpression are outside",
 				"package reflect is modelled by the engine (reading operations only)",
 			},
 		}
